@@ -14,10 +14,12 @@ CLAIMED = {
  'C04': ('model_checking', 'Gen.tla + Doc.tla/Align.tla via Obs.tla', FLOW + 'C04: every generated character (placeholder, label, heading dot, citation, paragraph frames, flow separators) maps into the span of the construct the reference names at that place.', '6/C04', 'as C02'),
  'C05': ('model_checking', 'Gen.tla + Doc.tla/Align.tla via Obs.tla', FLOW + 'C05: separator class (glued / blank / paragraph break) between adjacent words, computed by TeX\'s rules in Doc!Seps, for all layouts of blanks, line breaks, comments and vanishing constructs up to the bound.', '6/C05', 'as C02'),
  'C06': ('model_checking', 'Special.tla, GenStr.tla, ObsStr.tla', 'Special.tla gives the documented table and a declarative longest-match rewriting RefRewrite; GenStr.tla (TLC) enumerates ALL strings over the 19-symbol alphabet of the statement up to the bound and over the 6-symbol dash/quote/line-break alphabet up to a larger bound, checking the reference itself (identity on prose, monotone in-range positions); the real filter rewrites every string; ObsStr.tla compares text and position list with RefRewrite. Exhaustive at the bound, random beyond. This is the one-pure-function case: TLA+ contributes the declarative semantics and the complete enumeration.', '6/C06', 'the table in Special.tla is the documented one; strings with a special sequence on an otherwise blank line are excluded as in the statement'),
+ 'C08': ('model_checking', 'Doc.tla (fault symbols) via Gen.tla/Obs.tla (C08)', FLOW + 'C08: well-formed documents must produce neither diagnostic nor mark; documents with exactly one injected fault (12 kinds: open inline/display maths before a paragraph end or at the end of the text, open equation environment, open mandatory / optional argument, bad \\verb, missing \\end{verbatim}, unclosed skip comment, accent on a non-letter, unreadable \\LTinput) at every place the generator can put it must print a first diagnostic with the line/column of the problem, contain the complete mark whose first character maps to that place, and keep every copied character after the faulty construct.', '6/C08', 'one fault per document; as C02'),
  'C09': ('model_checking', 'Doc.tla (ExpandBody) via Gen.tla/Obs.tla', FLOW + 'C09: Doc!ExpandBody is TeX substitution for a catalogue of 8 definition shapes (0-2 parameters, optional default, argument used twice / never, nested call, \\def, \\renewcommand, use before definition, single-token argument); every document whose definitions lead the text is run three times (definitions in the document, via --defs, via a file read by \\LTinput) and Obs.tla judges each against the same expectation shifted by the constant offset.', '6/C09', 'definition shapes are a finite catalogue; as C02'),
  'C10': ('model_checking', 'Maths.tla/Doc.tla via Gen.tla/Obs.tla (C10Walk)', FLOW + 'C10: for every inline formula (bodies over letters, operators, fractions, sub-scripts, unknown maths macros, braces, maths space, punctuation; in text, arguments, items, footnotes, headings; languages en/de/ru) the characters mapping into the formula are exactly one placeholder of the inline collection of the language plus its closing punctuation mark, with a blank where the formula starts/ends with maths space, and successive formulas carry cyclically successive placeholders.', '6/C10', 'as C02; language switches inside a document belong to C12'),
  'C11': ('model_checking', 'Maths.tla (RefEq) via Gen.tla/Obs.tla (C11Walk)', FLOW + 'C11: Maths!RefEq is the documented rewriting scheme (rows x sections x parts, operator words, text parts copied with exact positions, punctuation kept, rotation points) with placeholders numbered relative to the rotation state; Obs.tla matches the text of every displayed equation (align, equation, \\[ \\], $$ $$; en/de/ru; simple mode on/off) piece by piece against it.', '6/C11', 'as C02; equations with a row that renders nothing are excluded (that is a blank line for the line-removal pass)'),
  'C13': ('model_checking', 'Replace.tla, GenRepl.tla, ObsRepl.tla', 'Replace.tla is the statement as a left-to-right machine (rule parsing, phrase matching with word boundaries and separators without blank line, position bookkeeping); GenRepl.tla (TLC) enumerates texts x position-list patterns (also non-monotonic) x 12 rule lists and checks the clauses of the statement on the specification itself; the real utils.replace_phrases (and tex2txt with repl, single- and multi-language) runs every case; ObsRepl.tla demands equality with the specification.', '6/C13', 'regular-expression semantics modelled only for the patterns replace_phrases builds'),
+ 'C19': ('model_checking', 'Doc.tla (unk) via Gen.tla/Obs.tla (C19)', FLOW + 'C19: the reference records undeclared names in order of first use (unknown macros and environments, the listed-but-unknown \\xfoo, user macros used before their definition), not those in maths, comments, skipped regions; the output of the real filter with unkn (two package selections) must be exactly that list, one per line.', '6/C19', 'package selections limited to the fixed set and *; as C02'),
  'C20': ('model_checking', 'Checks.tla, GenChk.tla, ObsChk.tla', 'Checks.tla defines declaratively the isolated letters not covered by an accepted pattern, the offending equation placeholders and the context excerpt; GenChk.tla (TLC) enumerates plain texts over the alphabet of the statement and checks the definitions; the real yalafi.shell.checks functions run on each text with 8 accept lists x 6 modes; ObsChk.tla compares the messages (offset, length, context) with the definitions.', '6/C20', 'regular-expression semantics (\\b, \\w, \\s, alternation order) modelled for the patterns checks.py builds; a missing equation message is DRIFT, not a violation'),
  'C07': ('model_checking', 'GenFree.tla/Gen.tla + ObsFree.tla', 'as C01; ObsFree.tla judges the outcome of every real run (returned / exception / exit / hang), excluding only self-recursive definitions as the statement does.', '6/C07', 'hang = no result within the per-case time limit'),
 }
